@@ -54,7 +54,7 @@ func init() {
 		Run:            c18Run,
 		Floor:          func(tier string) int { return 10000 },
 		MemCapMiB:      6144,
-		Rule:           "(initializer perturbations are applied one to three at a time and include data_location / external_data / segment; foreign nodes also name inputs for which no tensor exists yet) byte strings handed to NewModelFromBytes: truncation of mlp.onnx, gru.onnx and scaler.onnx at every offset (complete), then generated cases: single- and multi-byte flips, inserted/deleted ranges, varint inflation of length prefixes, random strings of length 0..512, over the sample models (ndm.onnx sampled) and freshly generated models; structured mutations through the protobuf API: every field of an initializer perturbed (dims negative / 0 / huge / wrong count, every data_type code, raw_data shortened/extended, typed fields populated inconsistently), value-infos without type / shape / dims, missing graph, nil entries. Every 16th byte string is also loaded through NewModelFromFile and NewModelFromZipFile, which must agree with NewModelFromBytes. Oracle: (model, nil) or (nil, error); a panic, a process-fatal error (seen by the supervisor through the write-ahead case log), a hang or a nil model without error is a violation. Opset lists over versions {-1,0,1,7,12,13,14,21,2^31,MaxInt64,MinInt64, 13+2^8, 13+2^16, 13+k*2^32, random 64-bit values} and several domains: loads iff the highest version is 13, else ErrUnsupportedOpsetVersion. Foreign operator types (placed first / in the middle / last / as a dead node; with named outputs, no outputs or only omitted outputs; with absent or skipped inputs): Run fails with ErrUnsupportedOperator, no outputs, and the proxy shows no apply for that node or any later one. Non-trivial = every mutated byte string / list (distinct by content hash).",
+		Rule:           "(once per run, in a child process: messages nested 100 .. 3 000 000 levels deep must be refused, not kill the process; 30% of the opset lists sit next to a model-local function with opset imports of its own) (initializer perturbations are applied one to three at a time and include data_location / external_data / segment; foreign nodes also name inputs for which no tensor exists yet) byte strings handed to NewModelFromBytes: truncation of mlp.onnx, gru.onnx and scaler.onnx at every offset (complete), then generated cases: single- and multi-byte flips, inserted/deleted ranges, varint inflation of length prefixes, random strings of length 0..512, over the sample models (ndm.onnx sampled) and freshly generated models; structured mutations through the protobuf API: every field of an initializer perturbed (dims negative / 0 / huge / wrong count, every data_type code, raw_data shortened/extended, typed fields populated inconsistently), value-infos without type / shape / dims, missing graph, nil entries. Every 16th byte string is also loaded through NewModelFromFile and NewModelFromZipFile, which must agree with NewModelFromBytes. Oracle: (model, nil) or (nil, error); a panic, a process-fatal error (seen by the supervisor through the write-ahead case log), a hang or a nil model without error is a violation. Opset lists over versions {-1,0,1,7,12,13,14,21,2^31,MaxInt64,MinInt64, 13+2^8, 13+2^16, 13+k*2^32, random 64-bit values} and several domains: loads iff the highest version is 13, else ErrUnsupportedOpsetVersion. Foreign operator types (placed first / in the middle / last / as a dead node; with named outputs, no outputs or only omitted outputs; with absent or skipped inputs): Run fails with ErrUnsupportedOperator, no outputs, and the proxy shows no apply for that node or any later one. Non-trivial = every mutated byte string / list (distinct by content hash).",
 		RaceInThorough: true,
 		Technique:      "runtime monitoring: robustness oracle over hostile byte strings with recover() in-process and child-process isolation (write-ahead case log, memory cap, watchdog) for process-fatal failures; errors.Is classification; proxy trace check for foreign operators",
 		Assumptions:    []string{"'highest imported opset version' is taken over all imports of the model, whatever their domain (as the statement says)"},
